@@ -1023,6 +1023,20 @@ func (x *c10) closePairing() {
 			if !(cl.Op == "load" && cl.Args[0].Op == "iaddr" && x.isSubsLoad(cl.Args[0].Args[0], recv) && ToPoly(cl.Args[0].Args[1]).Equal(ToPoly(idx))) {
 				ok, why = false, "the channel closed is not the list element at the index found: "+cl.String()
 			}
+			// a direct write into the list's array is the clearing of the slot the splice vacates: nil, at len-1
+			for i := range p.Events {
+				e := &p.Events[i]
+				if e.Kind != "store" || e.Addr.Op != "iaddr" || !x.isSubsLoad(e.Addr.Args[0], recv) {
+					continue
+				}
+				if e.Val.Op == "load" && e.Val.Args[0].Key() == e.Addr.Key() {
+					continue // writes back what is there
+				}
+				lenSubs := ToPoly(&Term{Op: "builtin", Sym: "len", Args: []*Term{e.Addr.Args[0]}})
+				if !e.Val.IsNil() || !ToPoly(e.Addr.Args[1]).Equal(lenSubs.Add(polyConst(1), -1)) {
+					ok, why = false, "an element of the subscriber list is overwritten: "+e.String()+" (only the vacated last slot may be cleared)"
+				}
+			}
 			v := stores[0].Val
 			good := v.Op == "builtin" && v.Sym == "append" && len(v.Args) == 2 &&
 				v.Args[0].Op == "slice" && x.isSubsLoad(v.Args[0].Args[0], recv) && (v.Args[0].Args[1].Op == "none" || v.Args[0].Args[1].IsConst("0")) && ToPoly(v.Args[0].Args[2]).Equal(ToPoly(idx)) &&
@@ -1343,8 +1357,10 @@ func (x *c10) errorTable() {
 			if r.B != nil && r.A.Op == "call" && strings.HasSuffix(r.A.Sym, "subIndex") {
 				if excludesMinusOne(p, r.A, len(p.Events)) {
 					found = "yes"
-				} else {
+				} else if impliesMinusOne(p, r.A) {
 					found = "no"
+				} else {
+					ok, why = false, "a path ("+p.CondString()+") decides on the search result without telling 'not found' (-1) from a position"
 				}
 			}
 		}
@@ -1526,6 +1542,14 @@ func (x *c10) withOnly() {
 				if p.End != EndReturn || len(p.Rets) != 1 || p.Rets[0].Op != "alloc" {
 					ok, why = false, "does not return the new PubSub"
 					continue
+				}
+				// the scan is left when the list is exhausted or at the match - never at a subscriber that is not the one
+				// asked for
+				for _, cd := range p.Conds {
+					r := cd.Rel()
+					if cd.NEv >= p.LoopAt[it.li.Hdr] && r.B != nil && r.Op == "!=" && ((it.isElem(r.A) && r.B.Key() == sub.Key()) || (it.isElem(r.B) && r.A.Key() == sub.Key())) {
+						ok, why = false, "the scan stops at a subscriber that is not the argument: a match further on is never reached"
+					}
 				}
 				clone := p.Rets[0]
 				// the search form: the loop is left at the match and the clone gets a one-element list of its own holding
@@ -1880,6 +1904,30 @@ func touchesSubs(fn *ssa.Function, fSubs *types.Var) bool {
 				if st, ok2 := fl.X.Type().Underlying().(*types.Struct); ok2 && fl.Field < st.NumFields() && sameField(st.Field(fl.Field), fSubs) {
 					return true
 				}
+			}
+		}
+	}
+	return false
+}
+
+// impliesMinusOne: the conditions of p leave -1 as the only value of t among {-1, 0, 1, ...}: t == -1, or t < k with
+// k <= 0 (t is a position or the sentinel -1).
+func impliesMinusOne(p *Path, t *Term) bool {
+	tp := ToPoly(t)
+	for _, cd := range p.Conds {
+		pl, kind, ok := cd.Rel().IntNorm()
+		if !ok {
+			continue
+		}
+		switch kind {
+		case "=":
+			if pl.Equal(canonSign(tp.Add(polyConst(1), 1))) {
+				return true
+			}
+		case ">":
+			// k - t > 0 with k <= 0
+			if k, isC := pl.Add(tp, 1).IsConst(); isC && k <= 0 {
+				return true
 			}
 		}
 	}
